@@ -542,6 +542,21 @@ fn core_grid(thorough: bool) -> Vec<Case> {
                 v.push(Case { sess: s, objs: vec![o], receive_once: true, fs: false, rx_variant: 0, direct: false, buf: false });
             }
         }
+        // very compressible content (zero-filled, compression ratio in the thousands), every content encoding, with and
+        // without MD5, delivered to the monitoring writer and to flute's own buffer writer
+        if scheme == Scheme::NoCode || scheme == Scheme::Rs28 {
+            for cenc in 1..=3u8 {
+                for md5 in [true, false] {
+                    let mut o = ObjSpec::simple(300_000, 5);
+                    o.oti = Some(OtiSpec::new(scheme, 256, 8, if scheme == Scheme::NoCode { 0 } else { 2 }, true));
+                    o.cenc = cenc;
+                    o.sparse = true;
+                    o.md5 = md5;
+                    let s = SessSpec::basic(OtiSpec::new(Scheme::NoCode, 1424, 64, 0, true));
+                    v.push(Case { sess: s, objs: vec![o], receive_once: true, fs: false, rx_variant: 0, direct: false, buf: cenc == 2 });
+                }
+            }
+        }
         // around the scheme's maximum transfer length, smallest (E, B)
         let (e, b) = if scheme == Scheme::Raptor { (1u16, 4u16) } else { (1u16, 1u16) };
         let oti = OtiSpec::new(scheme, e, b, if scheme == Scheme::NoCode { 0 } else { 1 }, true);
